@@ -1,1 +1,116 @@
-From Flaxm Require Import Lib.Harness Model.NnxFilters Model.NnxLift Proofs.NnxLift.
+(* Proofs about Model/LinenLoop.v (nn.scan's broadcast pre-pass) on top of Proofs/NnxLift.v. *)
+From Coq Require Import Lia ZArith.
+From Flaxm Require Import Lib.Harness Model.NnxFilters Model.NnxLift Model.LinenLoop Proofs.NnxFilters Proofs.NnxLift.
+
+(* non-interference, packaged: positions that are not tainted at the end get the same value in two runs that agree on
+   the untainted inputs *)
+Lemma brun_agree b tv tc v1 v2 x1 x2 c1 c2 j :
+  agree tv v1 v2 -> (tc = false -> c1 = c2) ->
+  nth j (fst (fold_left tstep (b_stmts b) (tv, tc))) false = false ->
+  nth j (fst (fst (brun b v1 x1 c1))) [] = nth j (fst (fst (brun b v2 x2 c2))) [].
+Proof.
+  intros A Hc T. pose proof (bsteps_agree (b_stmts b) tv tc v1 v2 x1 x2 c1 c2 A Hc) as B. unfold brun.
+  destruct (fold_left tstep (b_stmts b) (tv, tc)) as [tv' tc'].
+  destruct (fold_left (bstep x1) (b_stmts b) (v1, c1)) as [w1 d1]. destruct (fold_left (bstep x2) (b_stmts b) (v2, c2)) as [w2 d2].
+  destruct B as [(_ & _ & Ag) _]. cbn [fst] in *. now apply Ag.
+Qed.
+
+Lemma combine_nth_gen {A B} (l : list A) (l' : list B) j da db : j < length l -> j < length l' ->
+  nth j (combine l l') (da, db) = (nth j l da, nth j l' db).
+Proof. revert j l'; induction l as [|a r IH]; intros [|j] [|b r'] H1 H2; simpl in *; try lia; [reflexivity|]. apply IH; lia. Qed.
+
+Lemma nth_combine3 {A B} (specs : list A) (cur : list B) j (da : A) (db : B) : j < length cur -> length cur = length specs ->
+  nth j (combine (combine (seq 0 (length cur)) specs) cur) (0, da, db) = (j, nth j specs da, nth j cur db).
+Proof.
+  intros Hj L. rewrite combine_nth by (rewrite combine_length, seq_length; lia).
+  rewrite combine_nth by (rewrite seq_length; lia). rewrite seq_nth by lia. reflexivity.
+Qed.
+
+(* the views of two iterations agree on everything that is not loop-varying, i.e. on the broadcast variables *)
+Lemma views_agree specs (vals : list vval) i1 i2 : rep_ok specs vals ->
+  agree (map loop_varying specs) (map (view i1) vals) (map (view i2) vals).
+Proof.
+  intros [RL RO]. split; [now rewrite !map_length|]. split; [now rewrite !map_length|].
+  intros k Hk. destruct (nth_error specs k) as [s|] eqn:Es.
+  - assert (Hlt : k < length vals) by (rewrite RL; apply nth_error_Some; congruence).
+    rewrite (nth_indep _ [] (view i1 (Whole []))), (nth_indep (map (view i2) vals) [] (view i2 (Whole []))) by now rewrite map_length.
+    rewrite !map_nth. pose proof (RO _ _ Es) as R. destruct (nth k vals (Whole [])) as [t|l]; [reflexivity|].
+    rewrite (nth_indep _ false (loop_varying s)) in Hk by (rewrite map_length; apply nth_error_Some; congruence).
+    rewrite (map_nth loop_varying), (nth_error_nth _ _ _ Es) in Hk. unfold loop_varying in Hk. destruct s; simpl in *; congruence.
+  - apply nth_error_None in Es. rewrite !nth_overflow; [reflexivity| |]; rewrite map_length; lia.
+Qed.
+
+(* when nn.scan accepts a body, what the body leaves in a broadcast variable is the same for every iteration, input and
+   carry: the pre-pass value is well defined (and a write that does depend on the loop is rejected, never resolved) *)
+Theorem prepass_well_defined sa b rev0 vs c0 xs r specs :
+  lscan_model sa b rev0 vs c0 xs = Ok r -> all_specs sa vs = Some specs -> rep_ok specs (map v_val vs) ->
+  forall j i1 i2 x1 x2 c1 c2, nth_error specs j = Some SNone ->
+    nth j (fst (fst (brun b (map (view i1) (map v_val vs)) x1 c1))) [] = nth j (fst (fst (brun b (map (view i2) (map v_val vs)) x2 c2))) [].
+Proof.
+  unfold lscan_model. intros H Hs R. rewrite Hs in H.
+  destruct (existsb (fun st => is_none (fst st) && snd st) (combine specs (fst (fold_left tstep (b_stmts b) (map loop_varying specs, true))))) eqn:Ex; [discriminate|]. clear H.
+  intros j i1 i2 x1 x2 c1 c2 Hj.
+  apply (brun_agree b (map loop_varying specs) true); [now apply views_agree|discriminate|].
+  set (tv' := fst (fold_left tstep (b_stmts b) (map loop_varying specs, true))) in *.
+  destruct (nth j tv' false) eqn:Tj; [|reflexivity]. exfalso.
+  assert (Hlt : j < length specs) by (apply nth_error_Some; congruence).
+  assert (Hl' : j < length tv'). { destruct (Nat.ltb_spec j (length tv')); [assumption|]. rewrite nth_overflow in Tj by lia. discriminate. }
+  assert (X : existsb (fun st => is_none (fst st) && snd st) (combine specs tv') = true).
+  { apply existsb_exists. exists (SNone, true). split; [|reflexivity].
+    assert (E : nth j (combine specs tv') (SNone, false) = (nth j specs SNone, nth j tv' false)) by (apply combine_nth_gen; assumption).
+    rewrite Tj, (nth_error_nth _ _ _ Hj) in E. rewrite <- E. apply nth_In. rewrite combine_length. lia. }
+  congruence.
+Qed.
+
+(* for a body that leaves the broadcast variables alone, nn.scan IS the unrolled Python loop *)
+Theorem lscan_is_loop sa b rev0 vs c0 xs specs :
+  all_specs sa vs = Some specs -> scan_inv specs (map v_val vs) (map v_val vs) ->
+  (forall j, nth_error specs j = Some SNone -> writes b j = false) ->
+  lscan_model sa b rev0 vs c0 xs =
+    (let order := if rev0 then rev (seq 0 (length xs)) else seq 0 (length xs) in
+     let '(cur, c, ys) := loop_ref specs b order xs (map v_val vs, c0) [] in Ok (cur, c, ys_in_order (length xs) ys)).
+Proof.
+  intros Hs I NW. unfold lscan_model. rewrite Hs.
+  set (orig := map v_val vs) in *. destruct I as (L1 & L2 & Inv).
+  (* no broadcast variable becomes tainted: it is never written *)
+  assert (Taint : forall stmts tv tc, (forall j, nth_error specs j = Some SNone -> existsb (fun s => match s with BAddTo i _ | BScale i _ => Nat.eqb i j | BSetC _ => false end) stmts = false) ->
+            forall j, nth_error specs j = Some SNone -> nth j (fst (fold_left tstep stmts (tv, tc))) false = nth j tv false).
+  { induction stmts as [|s r IH]; intros tv tc H j Hj; cbn [fold_left]; [reflexivity|].
+    assert (Hr : forall j0, nth_error specs j0 = Some SNone -> existsb (fun s0 => match s0 with BAddTo i _ | BScale i _ => Nat.eqb i j0 | BSetC _ => false end) r = false).
+    { intros j0 Hj0. specialize (H j0 Hj0). cbn [existsb] in H. now apply orb_false_iff in H as [_ H]. }
+    specialize (H j Hj). cbn [existsb] in H. apply orb_false_iff in H as [H1 _].
+    destruct s as [i e|i z|e]; cbn [tstep]; rewrite (IH _ _ Hr j Hj); try reflexivity.
+    apply nth_upd_ne. intros ->. now rewrite Nat.eqb_refl in H1. }
+  assert (NoErr : existsb (fun st => is_none (fst st) && snd st) (combine specs (fst (fold_left tstep (b_stmts b) (map loop_varying specs, true)))) = false).
+  { apply not_true_is_false. intros X. apply existsb_exists in X as ([s t] & Hin & Hb). cbn [fst snd] in Hb. apply andb_true_iff in Hb as [Hn Ht].
+    destruct s; try discriminate. subst t. apply In_nth with (d := (SNone, false)) in Hin as (j & Hj & E).
+    rewrite combine_length in Hj.
+    assert (E2 : nth j (combine specs (fst (fold_left tstep (b_stmts b) (map loop_varying specs, true)))) (SNone, false) =
+                 (nth j specs SNone, nth j (fst (fold_left tstep (b_stmts b) (map loop_varying specs, true))) false)) by (apply combine_nth_gen; lia).
+    rewrite E in E2. inversion E2 as [[Es Et]].
+    assert (Hjs : nth_error specs j = Some SNone). { rewrite Es. apply nth_error_nth'. lia. }
+    rewrite (Taint (b_stmts b) _ true (fun j0 Hj0 => NW j0 Hj0) j Hjs) in Et.
+    rewrite (nth_indep _ false (loop_varying SNone)) in Et by (rewrite map_length; lia).
+    rewrite (map_nth loop_varying), <- Es in Et. cbn in Et. discriminate. }
+  rewrite NoErr.
+  (* the pre-pass leaves the broadcast variables as they were, so the loop starts from the caller's values *)
+  set (order := if rev0 then rev (seq 0 (length xs)) else seq 0 (length xs)).
+  set (once := match order with i :: _ => fst (fst (brun b (map (view i) orig) (nth i xs 0%Z) c0)) | [] => map (view 0) orig end).
+  set (F := fun jsv : nat * spec * vval => match snd (fst jsv) with SNone => Whole (nth (fst (fst jsv)) once []) | _ => snd jsv end).
+  assert (Same : map F (combine (combine (seq 0 (length orig)) specs) orig) = orig).
+  { apply nth_ext with (d := Whole []) (d' := Whole []); [rewrite map_length, !combine_length, seq_length; lia|].
+    intros j Hj. rewrite map_length, !combine_length, seq_length in Hj.
+    assert (Hjo : j < length orig) by lia.
+    rewrite (nth_indep _ (Whole []) (F (0, SNone, Whole []))) by (rewrite map_length, !combine_length, seq_length; lia).
+    rewrite (map_nth F), (nth_combine3 specs orig j SNone (Whole []) Hjo L1). unfold F. cbn [fst snd].
+    destruct (nth j specs SNone) eqn:Es; try reflexivity.
+    assert (Hjs : nth_error specs j = Some SNone). { rewrite <- Es. apply nth_error_nth'. lia. }
+    pose proof (Inv _ _ Hjs) as Iv. cbn in Iv. destruct (nth j orig (Whole [])) as [t|l] eqn:Eo; [|contradiction].
+    f_equal. unfold once. destruct order as [|i o].
+    + rewrite (nth_indep _ [] (view 0 (Whole []))) by now rewrite map_length. now rewrite map_nth, Eo.
+    + rewrite (brun_unwritten b _ _ _ j (NW _ Hjs)).
+      rewrite (nth_indep _ [] (view i (Whole []))) by now rewrite map_length. now rewrite map_nth, Eo. }
+  rewrite Same. fold order.
+  rewrite (scan_is_loop specs b orig order xs (orig, c0) []); [reflexivity| |exact NW].
+  cbn [fst]. split; [exact L1|]. split; [exact L2|exact Inv].
+Qed.
